@@ -119,6 +119,30 @@ def gen_tg(rnd, domain="full", labels=None, names=None, min_len=1e-6, ntiers=Non
     return {"lo": lo, "hi": max(t["hi"] for t in tiers), "tiers": tiers}
 
 
+def negate_tg(g, rnd, mode=None):
+    """a textgrid on NEGATIVE times made from one on [0, hi] (negation is exact, so every gap and every near-integer keeps its
+    shape): 'mirror' — the whole textgrid reflected at 0 (span [-hi, -0.0]: the span end is the float -0.0, written `0`);
+    'straddle' — every tier holds its reflected entries followed by its own (span [-hi, hi], entries on both sides of 0, an
+    interval ending at -0.0 may touch one starting at 0.0).  Defect A30 (fixed): the long-format reader lost the sign."""
+    import copy
+    mode = mode or rnd.choice(["mirror", "straddle"])
+    g = copy.deepcopy(g)
+    for t in g["tiers"]:
+        if t["k"] == "I":
+            back = [[-e[1], -e[0], e[2]] for e in reversed(t["es"])]
+        else:
+            back = [[-e[0], e[1]] for e in reversed(t["es"]) if not (mode == "straddle" and e[0] == 0)]
+        if mode == "mirror":
+            t["es"], t["lo"], t["hi"] = back, -t["hi"], -t["lo"]
+        else:
+            t["es"], t["lo"] = back + t["es"], -t["hi"]
+    if mode == "mirror":
+        g["lo"], g["hi"] = -g["hi"], -g["lo"]
+    else:
+        g["lo"] = -g["hi"]
+    return g
+
+
 # ---------------------------------------------------------------------------------------------
 # the real code
 # ---------------------------------------------------------------------------------------------
